@@ -289,10 +289,8 @@ contract(
     requires=["lazy_inv(self)"],
     ensures=["result >= 0",
              # no matching event -> 0; an event matching -> at least 1 (the count is the length of an enumeration of the matching rows)
-             "result > 0 or all(not (in_bucket(self, i, bucket_id) and ev_end(self, i) >= lo_bound(starttime) and ev_start(self, i) <= hi_bound(endtime))"
-             "                  for i in event_ids(self))",
-             "result == 0 or any(in_bucket(self, i, bucket_id) and ev_end(self, i) >= lo_bound(starttime) and ev_start(self, i) <= hi_bound(endtime)"
-             "                   for i in event_ids(self))",
+             "result > 0 or all(not must_window(self, i, bucket_id, starttime, endtime) for i in event_ids(self))",
+             "result == 0 or any(may_window(self, i, bucket_id, starttime, endtime) for i in event_ids(self))",
              ] + PURE_READ,
     modifies=DBMOD, writes_fresh=CUR_FRESH, raises=[],
 )
@@ -313,6 +311,28 @@ def in_window(self, i, bucket_id, starttime, endtime):
     return in_bucket(self, i, bucket_id) and ev_end(self, i) >= lo_bound(starttime) and ev_start(self, i) <= hi_bound(endtime)
 
 
+# C03 honours the window edges "to the store's millisecond resolution": an event within about a millisecond of an edge may go
+# either way.  A windowed read is therefore specified by two predicates over the stored floats - what MUST be returned (reaches
+# into the window by at least half a millisecond) and what MAY be returned (comes within half a millisecond of it) - and not by the
+# closed-interval comparison the SQL text happens to use: a change that opens or closes an edge is then not reported as a
+# violation of a property that allows it.  (Half a millisecond at the level of the floats is a millisecond at the level of
+# instants, the encoding being within half a microsecond of the instant: lemma F5; `real_plus` is exact real addition.)
+# An open-ended start has no edge: there the comparison (with 0, the epoch, which is an instant of the property's domain) is the exact
+# one.  An open-ended end is the sentinel 2**63-1 microseconds, some 290 000 years beyond every instant of the domain: no event is near it.
+@spec
+def must_window(self, i, bucket_id, starttime, endtime):
+    return (in_bucket(self, i, bucket_id)
+            and ev_end(self, i) >= real_plus(lo_bound(starttime), 500 if starttime is not None else 0)
+            and ev_start(self, i) <= real_plus(hi_bound(endtime), -500))
+
+
+@spec
+def may_window(self, i, bucket_id, starttime, endtime):
+    return (in_bucket(self, i, bucket_id)
+            and ev_end(self, i) >= real_plus(lo_bound(starttime), -500 if starttime is not None else 0)
+            and ev_start(self, i) <= real_plus(hi_bound(endtime), 500))
+
+
 contract(
     S_ + ".get_events",
     params={"self": "SqliteStorage", "bucket_id": "str", "limit": "int", "starttime": "Optional[datetime]", "endtime": "Optional[datetime]"},
@@ -324,12 +344,12 @@ contract(
         # what is handed out is the caller's: fresh objects with fresh data dicts (the store keeps no reference)
         "fresh(result) and all(fresh(result[j]) and fresh(result[j].data) for j in range(len(result)))",
         # every returned event is a stored event of the bucket inside the window, decoded; newest first (timestamp descending)
-        "all(result[j].id is not None and in_window(self, result[j].id, bucket_id, starttime, endtime)"
+        "all(result[j].id is not None and may_window(self, result[j].id, bucket_id, starttime, endtime)"
         "    and decodes(result[j], (result[j].id, ev_start(self, result[j].id), ev_end(self, result[j].id), ev_data(self, result[j].id)))"
         "    for j in range(len(result)))",
         "all(before(self, result[j].id, result[j2].id) for j in range(len(result)) for j2 in range(j + 1, len(result)))",
         # nothing inside the window is missing, except events older than every returned one when a positive limit is reached
-        "limit == 0 or all(not in_window(self, i, bucket_id, starttime, endtime)"
+        "limit == 0 or all(not must_window(self, i, bucket_id, starttime, endtime)"
         "    or any(result[j].id == i for j in range(len(result)))"
         "    or (limit > 0 and len(result) == limit and all(before(self, result[j].id, i) for j in range(len(result))))"
         "    for i in event_ids(self))",
@@ -452,8 +472,9 @@ def heartbeat_step(storage, bucket_id, heartbeat, pulsetime):
 
 @spec
 def in_range_1970(self, bucket_id):
-    """every event of the bucket lies inside the window an unbounded read uses (end >= 1970, start <= MAX_TIMESTAMP)"""
-    return all(not in_bucket(self, i, bucket_id) or (ev_end(self, i) >= 0 and ev_start(self, i) <= 2 ** 63 - 1) for i in event_ids(self))
+    """every event of the bucket lies inside the window an unbounded read uses (end >= 1970, start before the sentinel 2**63-1 us by
+    more than the edge tolerance - i.e. before the year 294247)"""
+    return all(not in_bucket(self, i, bucket_id) or (ev_end(self, i) >= 0 and ev_start(self, i) <= 2 ** 63 - 501) for i in event_ids(self))
 
 
 contract(
@@ -522,7 +543,7 @@ contract(
 )
 
 
-# -- C03: a stored event is returned by a windowed read exactly when it intersects the window (as instants; lemma F5) ----------------
+# -- C03: a stored event is returned by a windowed read when it intersects the window, edges to the millisecond (as instants; lemma F5) --
 def stored_event_in_window(storage, bucket_id, event, starttime, endtime):
     storage.insert_one(bucket_id, event)
     return storage.get_events(bucket_id, -1, starttime, endtime)
@@ -538,9 +559,14 @@ contract(
               "starttime is None or (EPOCH <= starttime and starttime <= EPOCH + timedelta(days=47513))",
               "endtime is None or (EPOCH <= endtime and endtime <= EPOCH + timedelta(days=47513))"],
     ensures=[
-        # returned exactly when the event's time span [start, end] meets the window [starttime, endtime] (closed, as instants)
-        "any(result[j].id == event.id for j in range(len(result)))"
-        " == ((starttime is None or starttime <= old(event.timestamp + event.duration)) and (endtime is None or old(event.timestamp) <= endtime))",
+        # returned whenever the event's time span [start, end] reaches into the window [starttime, endtime] by at least a millisecond,
+        # and only if it comes within a millisecond of it (as instants; between the two the property leaves the answer open)
+        "not ((starttime is None or starttime + timedelta(milliseconds=1) <= old(event.timestamp + event.duration))"
+        "     and (endtime is None or old(event.timestamp) + timedelta(milliseconds=1) <= endtime))"
+        " or any(result[j].id == event.id for j in range(len(result)))",
+        "not any(result[j].id == event.id for j in range(len(result)))"
+        " or ((starttime is None or starttime - timedelta(milliseconds=1) <= old(event.timestamp + event.duration))"
+        "     and (endtime is None or old(event.timestamp) - timedelta(milliseconds=1) <= endtime))",
         # and then with its own instant and duration
         "all(result[j].id != event.id or (result[j].timestamp == old(event.timestamp) and result[j].duration == old(event.duration))"
         "    for j in range(len(result)))",
